@@ -194,7 +194,9 @@ package cache
 //@ assume collect/cache.(*CuckooTraceChecker).SetNextCapacity
 //@ contract config.SampleCacheConfig.GetKeptSizePerWorker inline
 //@ contract config.SampleCacheConfig.GetDroppedSizePerWorker inline
-//@ contract collect/cache.(*cuckooSentCache).Resize props C31,C01 havocheap
+// the monitor goroutine the cache starts reads cfg without a lock: it is written only while the cache is built
+//@ final collect/cache.cuckooSentCache.cfg
+//@ contract collect/cache.(*cuckooSentCache).Resize props C31,C01,C35 havocheap
 //@   arith math
 //@   requires c != nil && c.kept != nil && c.dropped != nil
 //@   let old0 = c.kept
